@@ -36,6 +36,7 @@ import (
 	"bytes"
 	"encoding/json"
 	"fmt"
+	"math/rand"
 	"net"
 	"os"
 	"path/filepath"
@@ -548,9 +549,208 @@ func TestVerifC20DemuxConc(t *testing.T) {
 	}
 }
 
-func vfC20max(a, b int) int {
-	if a > b {
-		return a
+// ----------------------------------------------------------------------------- hammer
+//
+// Part "demux-hammer": many goroutines register and remove DIFFERENT attempt ids at the
+// same time, on top of a ballast of long-lived attempts (a large registry makes whatever a
+// registration does to the set take longer, which widens any window in which a concurrent
+// removal could be lost). Every id is used for exactly one AddPunchAttempt and one
+// RemovePunchAttempt, by one goroutine, and is never registered again. Therefore:
+//
+//   any punch packet of attempt Y handed to the wrapper AFTER RemovePunchAttempt(Y) returned
+//   must reach the reader — whatever else is going on. A diverted one is a definitive
+//   "divert after remove" (key realm:divert-after-remove), e.g. a removal overwritten by a
+//   concurrent registration of another id.
+//
+// Packets of Y are injected right after the removal returned (still in the storm) and once
+// more in a final sweep after all goroutines are done ("back for good"). Histories
+// (add, remove, reads) also go to c20-history-hammer.jsonl for the porcupine checker.
+
+func TestVerifC20DemuxHammer(t *testing.T) {
+	k := vfNewKit(t, "C20", "demux-hammer")
+	defer k.Finish()
+	hf, err := os.Create(filepath.Join(k.Out, "c20-history-hammer.jsonl"))
+	if err != nil {
+		t.Fatalf("create history: %v", err)
 	}
-	return b
+	defer hf.Close()
+	henc := json.NewEncoder(hf)
+
+	nWorlds := k.N(8, 120)
+	for wi := 0; wi < nWorlds; wi++ {
+		world := fmt.Sprintf("hammer-%d", wi)
+		if rc := k.ReplayCase(); rc != "" && rc != world {
+			continue
+		}
+		k.Eval()
+		r := k.Rand(world)
+		nThreads := 6 + r.Intn(11) // 6..16 goroutines adding/removing
+		nRounds := k.N(120, 200)
+		nBallast := 16 << uint(r.Intn(4)) // 16, 32, 64, 128 long-lived attempts
+		nReaders := 1 + r.Intn(3)
+		injectEvery := 1 + r.Intn(3)
+
+		clock := &vfC20Clock{}
+		in := &vfC20ConcInner{k: k, clock: clock, ch: make(chan *vfC20Pkt, 512), readers: map[uint64]*vfC20ReaderState{}, yield: uint32(r.Intn(3))}
+		w, err := NewPunchPacketConn(in, 8)
+		if err != nil {
+			t.Fatalf("NewPunchPacketConn: %v", err)
+		}
+		for b := 0; b < nBallast; b++ {
+			if err := w.AddPunchAttempt(fmt.Sprintf("%s-ballast-%d", world, b), vfC20RandMeta(r).PM()); err != nil {
+				t.Fatalf("ballast: %v", err)
+			}
+		}
+		type hid struct {
+			id      string
+			meta    vfC20Meta
+			client  int
+			addCall int64
+			addRet  int64
+			remCall int64
+			remRet  int64
+			pkts    []*vfC20Pkt
+		}
+		all := make([][]*hid, nThreads)
+		var seqCtr atomic.Int64
+		mkPkt := func(rr *rand.Rand, h *hid, kind string) *vfC20Pkt {
+			seq := int(seqCtr.Add(1))
+			var pad [64]byte
+			rr.Read(pad[:])
+			p := &vfC20Pkt{Seq: seq, Kind: kind, Owner: -1, From: vfC20SeqAddr(seq),
+				Data: vfC20RefEncodeValid(h.meta, byte(1+rr.Intn(2)), vfC20Tag(seq), pad[:rr.Intn(65)])}
+			h.pkts = append(h.pkts, p)
+			return p
+		}
+		// readers and event drain (events are not examined here; keep the channels from filling)
+		var rwg sync.WaitGroup
+		stopDrain := make(chan struct{})
+		var dwg sync.WaitGroup
+		dwg.Add(1)
+		go func() {
+			defer dwg.Done()
+			for {
+				select {
+				case <-w.Events():
+				case <-w.STUNEvents():
+				case <-stopDrain:
+					return
+				}
+			}
+		}()
+		for rd := 0; rd < nReaders; rd++ {
+			rwg.Add(1)
+			go func() {
+				defer rwg.Done()
+				st := in.state()
+				buf := make([]byte, 2048)
+				for {
+					n, addr, err := w.ReadFrom(buf)
+					now := clock.Stamp()
+					rec := st.pending
+					if err != nil {
+						return
+					}
+					if rec == nil {
+						vfC20V(k, "realm:returned-without-delivery", map[string]any{"case_id": world}, "ReadFrom returned %d bytes although no injected packet was pending on this reader", n)
+						continue
+					}
+					rec.ret, rec.diverted, rec.done = now, false, true
+					st.pending = nil
+					if n != len(rec.pkt.Data) || !bytes.Equal(buf[:n], rec.pkt.Data) || !vfC20SameAddr(addr, rec.pkt.From) {
+						vfC20V(k, "realm:passthrough-bytes-differ", map[string]any{"case_id": world, "packet": vfC20PktBrief(rec.pkt)},
+							"packet #%d reached the reader altered or with source %v (injected from %v)", rec.pkt.Seq, addr, rec.pkt.From)
+					}
+				}
+			}()
+		}
+		// the storm
+		var start sync.WaitGroup
+		start.Add(1)
+		var twg sync.WaitGroup
+		for th := 0; th < nThreads; th++ {
+			tr := k.Rand(fmt.Sprintf("%s/t%d", world, th))
+			all[th] = make([]*hid, 0, nRounds)
+			twg.Add(1)
+			go func(th int) {
+				defer twg.Done()
+				start.Wait()
+				for rd := 0; rd < nRounds; rd++ {
+					h := &hid{id: fmt.Sprintf("%s-t%d-r%d", world, th, rd), meta: vfC20RandMeta(tr), client: 100 + th}
+					all[th] = append(all[th], h)
+					pm := h.meta.PM()
+					h.addCall = clock.Stamp()
+					if err := w.AddPunchAttempt(h.id, pm); err != nil {
+						vfC20V(k, "realm:add-refused", map[string]any{"case_id": world, "id": h.id}, "AddPunchAttempt refused well-formed metadata: %v", err)
+					}
+					h.addRet = clock.Stamp()
+					if tr.Intn(4) == 0 {
+						runtime.Gosched()
+					}
+					h.remCall = clock.Stamp()
+					w.RemovePunchAttempt(h.id)
+					h.remRet = clock.Stamp()
+					if rd%injectEvery == 0 {
+						in.ch <- mkPkt(tr, h, "punch-after-remove") // handed over after the removal returned
+					}
+				}
+			}(th)
+		}
+		start.Done()
+		twg.Wait()
+		// final sweep: every id was removed long ago
+		for th := range all {
+			for _, h := range all[th] {
+				in.ch <- mkPkt(r, h, "punch-final-sweep")
+			}
+		}
+		close(in.ch)
+		rwg.Wait()
+		close(stopDrain)
+		dwg.Wait()
+
+		fate := map[int]*vfC20ReadRec{}
+		for _, st := range in.readers {
+			for _, rec := range st.reads {
+				fate[rec.pkt.Seq] = rec
+			}
+		}
+		nDivert, nPass := 0, 0
+		for th := range all {
+			for _, h := range all[th] {
+				k.Count("ev_writes", 2)
+				_ = henc.Encode(vfC20HistRec{World: world, Attempt: h.id, Client: h.client, Op: "add", Val: true, Call: h.addCall, Ret: h.addRet})
+				_ = henc.Encode(vfC20HistRec{World: world, Attempt: h.id, Client: h.client, Op: "remove", Val: false, Call: h.remCall, Ret: h.remRet})
+				for _, p := range h.pkts {
+					rec := fate[p.Seq]
+					if rec == nil || !rec.done {
+						t.Fatalf("vfC20: hammer packet %d has no fate", p.Seq)
+					}
+					if rec.call < h.remRet {
+						t.Fatalf("vfC20: harness self-check: packet handed over before the removal returned")
+					}
+					k.Count("ev_packets", 1)
+					_ = henc.Encode(vfC20HistRec{World: world, Attempt: h.id, Client: rec.client, Op: "read", Val: rec.diverted, Call: rec.call, Ret: rec.ret, Pkt: p.Seq})
+					if !rec.diverted {
+						nPass++
+						continue
+					}
+					nDivert++
+					vfC20V(k, "realm:divert-after-remove", map[string]any{"case_id": world, "attempt": h.id, "packet": vfC20PktBrief(p),
+						"add": []int64{h.addCall, h.addRet}, "remove": []int64{h.remCall, h.remRet}, "read": []int64{rec.call, rec.ret},
+						"threads": nThreads, "ballast": nBallast},
+						"attempt %s: AddPunchAttempt [%d,%d], RemovePunchAttempt [%d,%d] (returned), never registered again; its punch packet #%d (%s) handed over at stamp %d was still diverted — the removal was lost (%d goroutines registering/removing other ids, %d long-lived attempts)",
+						h.id, h.addCall, h.addRet, h.remCall, h.remRet, p.Seq, p.Kind, rec.call, nThreads, nBallast)
+				}
+			}
+		}
+		k.Count("ev_passed", int64(nPass))
+		k.Count("ev_diverted", int64(nDivert))
+		k.Count("ev_hammer_ids", int64(nThreads*nRounds))
+		k.Nontrivial(fmt.Sprintf("%s/%d/%d/%d", world, nThreads, nRounds, nBallast))
+		if wi < 2 {
+			k.Sample(map[string]any{"world": world, "goroutines": nThreads, "ids_each": nRounds, "ballast_attempts": nBallast, "readers": nReaders,
+				"packets_after_remove": nPass + nDivert, "diverted_after_remove": nDivert})
+		}
+	}
 }
